@@ -3,8 +3,12 @@
    the specification's ser_parts (fixed parts with 4-byte offsets, then the variable parts in
    order) and the returned count is the length of what is written, for ANY list of element
    encodings; (2) the leaf kinds uintN / boolean.  The tree-reading part (elements fetched through
-   getter / the iterators, packing, bit handling) is tied by the correspondence (see "partial"). *)
-Require Import RM.Base RM.Types RM.Spec RM.ModelViews RM.ModelCodec RM.SerLen RM.SerProofs RM.CodecBasicProofs.
+   getter / the iterators, packing, bit handling) is tied by the correspondence (see "partial");
+   (3) C02_constructed: for every type built from uintN, boolean, containers, unions and vectors /
+   lists of non-basic elements (`supported`), at any nesting depth, and every well-formed value, the
+   backing tree the constructor builds serialises (getter-by-gindex element reads, length / selector
+   mix-in reads, offset bookkeeping) to exactly the specification bytes and count. *)
+Require Import RM.Base RM.Types RM.Spec RM.ModelViews RM.ModelCodec RM.SerLen RM.SerProofs RM.SerProofs2 RM.CodecBasicProofs.
 Local Open Scope N_scope.
 
 (* variable-size elements: offsets, then the elements; count = bytes written *)
@@ -43,6 +47,19 @@ Theorem C02_bool : forall H src b nd, mk H TBool (VBool b) = Ok nd ->
   ser_impl H src TBool nd = Ok (ser TBool (VBool b), 1).
 Proof. exact ser_bool. Qed.
 
+(* the full statement for constructed values of supported types, any nesting depth, any hash *)
+Theorem C02_constructed : forall H src t v, wf_ty t = true -> supported t = true -> wf t v = true ->
+  exists n, mk H t v = Ok n /\ ser_impl H src t n = Ok (ser t v, lenN (ser t v)).
+Proof. exact ser_constructed_total. Qed.
+
+(* non-vacuity: a union of a container with a variable-size list field is supported and has well-formed values *)
+Example C02_constructed_nonvacuous :
+  let t := TUnion true [TContainer [TUint 8; TList (TContainer [TBool; TUint 2]) 5]; TVector (TList (TUnion false [TBool]) 3) 2] in
+  wf_ty t = true /\ supported t = true /\
+  wf t (VUnion 1 (Some (VCont [VUint 77; VSeq [VCont [VBool true; VUint 513]; VCont [VBool false; VUint 1]]]))) = true /\
+  wf t (VUnion 2 (Some (VSeq [VSeq [VUnion 0 (Some (VBool true))]; VSeq []]))) = true.
+Proof. vm_compute. repeat split. Qed.
+
 (* the specification's encoding length is what the type facts say (used with the counts above) *)
 Theorem C02_length_within_bounds : forall t v, wf_ty t = true -> wf t v = true ->
   min_len t <= lenN (ser t v) <= max_len t.
@@ -54,3 +71,4 @@ Print Assumptions C02_container_offsets.
 Print Assumptions C02_uint.
 Print Assumptions C02_bool.
 Print Assumptions C02_length_within_bounds.
+Print Assumptions C02_constructed.
